@@ -125,6 +125,14 @@ class FObj(object):
         self.attrs = {}
 
 
+class _ReModule(object):
+    """the `re` module: pure functions of constant strings are folded natively"""
+
+
+SAFE_RE_FUNCS = {"split", "sub", "subn", "match", "search", "fullmatch", "findall", "escape"}
+SAFE_RE_FLAGS = {"I", "IGNORECASE", "S", "DOTALL", "M", "MULTILINE", "X", "VERBOSE", "A", "ASCII"}
+
+
 class _Super(object):
     def __init__(self, after: ClassInfo, cls: ClassInfo):
         self.after, self.cls = after, cls
@@ -540,6 +548,10 @@ class _Frame(object):
                 return _Bound("builtin", None, "reverse_complement")
             if d in ("itertools.chain",):
                 return _Bound("builtin", None, "chain")
+            if d == "re":
+                return _ReModule()
+            if d.startswith("re.") and d[3:] in SAFE_RE_FUNCS:
+                return _Bound("re", None, d[3:])
             self.unsupported(node, "external name %s" % d)
         if isinstance(r, tuple) and r and r[0] == "assign":
             _, mod, val = r
@@ -574,6 +586,22 @@ class _Frame(object):
             if owner is None:
                 self.unsupported(e, "super attribute")
             return self.f._attr_value(owner, raw, base.cls)
+        if isinstance(base, _ReModule):
+            if a in SAFE_RE_FUNCS:
+                return _Bound("re", None, a)
+            if a in SAFE_RE_FLAGS:
+                import re as _re
+
+                return int(getattr(_re, a))
+            self.unsupported(e, "re.%s" % a)
+        import re as _re_mod
+
+        if isinstance(base, _re_mod.Match):
+            if a in ("group", "groups", "start", "end", "span", "groupdict"):
+                return _Bound("native", base, a)
+            if a in ("string", "pos", "endpos", "lastindex"):
+                return getattr(base, a)
+            self.unsupported(e, "match attribute")
         if isinstance(base, (FNT, FObj)):
             if isinstance(base, FNT) and a in base.fields:
                 return base[base.fields.index(a)]
@@ -781,6 +809,16 @@ class _Frame(object):
             return self.instantiate(fn, args, kwargs, e)
         if not isinstance(fn, _Bound):
             self.unsupported(e, "call")
+        if fn.kind == "re":
+            import re as _re
+
+            a2 = [x.s if isinstance(x, SeqVal) else x for x in args]
+            if not all(isinstance(x, (str, int)) for x in a2) or not all(isinstance(v, (str, int)) for v in kwargs.values()):
+                self.unsupported(e, "re.%s on non-constant arguments" % fn.name)
+            try:
+                return getattr(_re, fn.name)(*a2, **kwargs)
+            except Exception as ex:
+                self.unsupported(e, "re.%s raised %s:" % (fn.name, type(ex).__name__))
         if fn.kind == "method":
             fi, obj = fn.target
             return self.f.call_func(fi, obj.ci, args, kwargs, instance=obj)
